@@ -399,9 +399,23 @@ def check_classifiers(fx, rep, rule):
             t = call("core::str::trim", line)
             mid = call("std::ops::Index::index", t, ("adt", "Range", "Range", (("start", lit_int(3)), ("end", S.lin_norm([(call("core::str::len", t), 1)], -1)))))
 
-            def ref(o):
-                if not o(("bool", call("core::str::starts_with", t, ("lit", "str", "at ")))) or not o(("bool", call("core::str::ends_with", t, ("lit", "char", ")")))):
-                    return NONE
+            def ref(o, variant=0):
+                if variant == 0:
+                    if not o(("bool", call("core::str::starts_with", t, ("lit", "str", "at ")))) or not o(("bool", call("core::str::ends_with", t, ("lit", "char", ")")))):
+                        return NONE
+                    mid_ = mid
+                else:
+                    # the same text, obtained with strip_prefix("at ") / strip_suffix(')') (equal for every string: "at " does not end in ')')
+                    sp_ = call("core::str::strip_prefix", t, ("lit", "str", "at "))
+                    if not o(("is", sp_, "Some")):
+                        return NONE
+                    ss_ = call("core::str::strip_suffix", mk_payload(sp_, "Some", "0"), ("lit", "char", ")"))
+                    if not o(("is", ss_, "Some")):
+                        return NONE
+                    mid_ = mk_payload(ss_, "Some", "0")
+                return ref_tail(o, mid_)
+
+            def ref_tail(o, mid):
                 s1 = call("core::str::split_once", mid, ("lit", "char", "("))
                 if not o(("is", s1, "Some")):
                     return NONE
@@ -419,6 +433,10 @@ def check_classifiers(fx, rep, rule):
                                                                  ("line", mk_payload(ln, "Ok", "0")), ("file", some(mk_field(mk_payload(s3, "Some", "0"), "0"))),
                                                                  ("parameters", NONE))))
             bad, n = fc.compare_paths(res, ref, lambda st, out: R1.canon_iter(out[1]))
+            if bad:
+                bad2, n2 = fc.compare_paths(res, lambda o: ref(o, 1), lambda st, out: R1.canon_iter(out[1]))
+                if not bad2:
+                    bad = bad2
             R1.report_cmp(rep, rule, "%s/parse_frame" % rule, b, res, bad,
                           "trim; 'at ' ... ')'; method part / file part at the first '('; class.method at the LAST '.'; file:line at the first ':'; line parsed as usize")
     # parse_throwable: `<class>[: <message>]` after trim; split at the FIRST ": "; class without spaces
@@ -432,43 +450,24 @@ def check_classifiers(fx, rep, rule):
         except S.Undecidable as e:
             rep.undecidable(rule, "%s/parse_throwable/shape" % rule, loc=F.loc(e.node) if isinstance(e.node, dict) else "", construct=e.msg)
             return
-        good = len(res) == 3
-        desc = []
-        it_name = None
-        for st, (k, v) in res:
-            nexts = [e for e in st.effects if e[0] == "call" and R.is_next(e[1])]
-            desc.append("%s -> %s" % (S.cstr(st.conds)[:160], S.tstr(v)[:120]))
-            if v[0] == "adt" and v[2] == "Some":
-                th = dict(v[3][0][1][3])
-                c_, m_ = th.get("class"), th.get("message")
-                okp = len(nexts) == 2 and c_ == mk_payload(("mcall",) + nexts[0][1:], "Some", "0") and m_ == ("mcall",) + nexts[1][1:] and nexts[0][2] == nexts[1][2]
-                a = fc.assignment(st.conds)
-                sp_atom = [at for at in a if at[0] == "bool" and at[1][0] == "call" and at[1][1].endswith("str::contains") and at[1][2] == (c_, ("lit", "char", " "))]
-                okp = okp and len(sp_atom) == 1 and a[sp_atom[0]] is False
-                good = good and okp
-                if nexts and nexts[0][2][0][0] == "place":
-                    it_name = nexts[0][2][0][1]
-            elif v != NONE:
-                good = False
-        init_ok = False
-        if it_name:
-            for n_ in F.walk(b["body"]):
-                if n_.get("k") == "Block":
-                    for s_ in n_["stmts"]:
-                        if s_["k"] == "Let" and s_["pat"]["k"] == "Bind" and s_["pat"]["name"] == it_name and s_.get("init") is not None:
-                            i_ = F.strip(s_["init"])
-                            if F.is_call(i_, "core::str::<impl str>::splitn") and F.strip(i_["args"][1]).get("lit", {}).get("v") == 2 \
-                                    and F.strip(i_["args"][2]).get("lit", {}).get("v") == ": ":
-                                src = F.strip(i_["args"][0])
-                                # the split runs over trim(line)
-                                init_ok = src.get("k") == "Var"
-                                for n2 in F.walk(b["body"]):
-                                    if n2.get("k") == "Block":
-                                        for s2 in n2["stmts"]:
-                                            if s2["k"] == "Let" and s2["pat"]["k"] == "Bind" and s2["pat"].get("id") == src.get("id"):
-                                                init_ok = F.is_call(F.strip(s2["init"]), "core::str::<impl str>::trim")
-        rep.check(rule, "%s/parse_throwable" % rule, good and init_ok, loc=F.short_file(b["sp"]), found=desc + ["splitn(trim(line), 2, \": \"): %s" % init_ok],
-                  expected="trim; split once at the first \": \"; class = first piece (rejected if it contains a space), message = the optional rest")
+        line = ("in", b["params"][0]["pat"]["name"])
+        t = call("core::str::trim", line)
+        so = call("core::str::split_once", t, ("lit", "str", ": "))
+
+        def ref_t(o):
+            if o(("is", so, "Some")):
+                cls, msg = mk_field(mk_payload(so, "Some", "0"), "0"), some(mk_field(mk_payload(so, "Some", "0"), "1"))
+            else:
+                cls, msg = t, NONE
+            if o(("bool", call("core::str::contains", cls, ("lit", "char", " ")))):
+                return NONE
+            return some(("adt", "Throwable", "Throwable", (("class", cls), ("message", msg))))
+        bad, n = fc.compare_paths(res, ref_t, lambda st, out: out[1])
+        eff = [e for st, o in res for e in st.effects]
+        rep.check(rule, "%s/parse_throwable/pure" % rule, not eff, loc=F.short_file(b["sp"]), found=[S.tstr(e)[:100] for e in eff[:3]] or "no effects",
+                  expected="the classifier is a pure function of the line", nontrivial=False)
+        R1.report_cmp(rep, rule, "%s/parse_throwable" % rule, b, res, bad,
+                      "trim; split once at the FIRST \": \" (splitn(2) or split_once); class = first piece (rejected if it contains a space), message = the optional rest")
 
 
 def check_element_display(fx, rep, rule):
